@@ -57,7 +57,7 @@ impl C12 {
         C12 {
             tier,
             seed,
-            n: scaled(tier.pick(500, 20_000), scale),
+            n: scaled(tier.pick(1_000, 25_000), scale),
         }
     }
 
